@@ -295,6 +295,11 @@ public:
 		}
 	}
 
+	void forget(const void * obj)
+	{
+		for(size_t i = 0; i < accessTable.size(); ++i) if(accessTable[i].obj == obj) { accessTable.erase(accessTable.begin() + (long)i); return; }
+	}
+
 	// ---------------- watched ranges (objects under test) -----------------
 	void watch(const void * p, size_t n) { watchLo.push_back((const char *)p); watchHi.push_back((const char *)p + n); }
 	bool watched(const void * p) const
